@@ -615,7 +615,6 @@ class PLSSChunker:
                 self.unused_blocks.append((0, text[:start]))
 
             new_block = text[start:next_start]
-            new_block = cleanup_desc(new_block)
             self.blocks.append(new_block)
         return None
 
@@ -640,7 +639,6 @@ class PLSSChunker:
                 self.unused_blocks.append((1, text[end:]))
 
             new_block = text[previous_end:end]
-            new_block = cleanup_desc(new_block)
             self.blocks.append(new_block)
         return None
 
